@@ -2135,8 +2135,9 @@ def _compute_event_comparison_score(
         if "flow_id" not in ref_event.arguments:
             match_score *= 0.9
         else:
+            # The other parameters of the statement must match as well
             match_score = float(
-                ref_event.name == InternalEvents.START_FLOW
+                match_score > 0.0
                 and ref_event.arguments["flow_id"] == event.arguments["flow_id"]
             )
     elif event.name in InternalEvents.ALL and ref_event.name in InternalEvents.ALL:
